@@ -912,6 +912,8 @@ func (s *Server) RemoteHello(
 	s.lastPushData.queueTick = export.QueueTick
 	s.lastPushData.mTrackedTimeSum = tTrackedSum
 	s.lastPush = time.Now()
+	// mutations older than this snapshot are of no use for the new client
+	s.tracer.dataQueue = nil
 	s.clientId.Store(&req.Id)
 
 	s.log("RemoteHello: t%v q%d", tTrackedSum, export.QueueTick)
@@ -1086,11 +1088,53 @@ func (s *Server) RemoteSync(
 	}
 	s.Mach.Add1(ssS.MetricSync, nil)
 
+	// serialize with pushes and mutation replies
+	s.lockExport.Lock()
+	defer s.lockExport.Unlock()
+	s.lockCollection.Lock()
+	defer s.lockCollection.Unlock()
+
+	// the same view of the clock as in RemoteHello and the tracer
+	mTime := s.Source.Time(nil)
+	qTick := s.Source.QueueTick()
+	machTick := s.Source.MachineTick()
+	tracked := s.tracer.trackedStateIdxs
+	if s.tracer.trackedStates != nil {
+		if !s.syncSchema {
+			// client-bound indexes when no schema synced
+			mTime = mTime.Filter(tracked)
+		} else {
+			// zero non-tracked for consistent checksums
+			for i := range mTime {
+				if !slices.Contains(tracked, i) {
+					mTime[i] = 0
+				}
+			}
+		}
+	}
+	if s.syncShallowClocks {
+		mTime = am.NewTime(mTime, mTime.ActiveStates(nil))
+	}
+	tSum := mTime.Sum(nil)
+
 	*resp = MsgSrvSync{
-		Time:      s.Source.Time(nil),
-		QueueTick: s.Source.QueueTick(),
+		Time:      mTime,
+		QueueTick: qTick,
+		MachTick:  machTick,
 	}
 	s.log("RemoteSync: [%v]", resp.Time)
+
+	// memorize, the client is at this point now
+	s.tracer.dataQueue = nil
+	s.storeLastPush(&tracerData{
+		mTime:           mTime,
+		mTrackedTimeSum: tSum,
+		queueTick:       qTick,
+		machTick:        machTick,
+		checksum:        Checksum(tSum, qTick, machTick),
+		tracked:         s.tracer.trackedStates,
+		trackedIdxs:     tracked,
+	})
 
 	return nil
 }
